@@ -137,6 +137,18 @@ def scalar_family():
                            b.classes['K'](2, 'd', collections.OrderedDict([('1', 'one'), ('true', True), ('f', 1.5)])),
                            # extra attributes may have any name, also the ones the constructor machinery uses
                            b.classes['K'](3, 'd', collections.OrderedDict([('self', 'me'), ('_yatiml_extra', {'a': 1}), ('cls', 2)]))]))
+    # attributes that are not entries of the instance __dict__: __slots__ classes (also derived ones) and attributes
+    # offered through a property of the parameter's name
+    sl = {'name': 'Sl', 'params': [('x', 'int'), ('y', 'str', 'a')], 'slots': True}
+    sd = {'name': 'Sd', 'bases': ['Sl'], 'params': [('x', 'int'), ('z', ('cls', 'In')), ('y', 'str', 'a')], 'slots': True}
+    pr = {'name': 'Pr', 'params': [('x', 'int'), ('e', ('cls', 'E')), ('l', ('opt', ('list', 'int')), None)], 'props': True}
+    px = {'name': 'Px', 'params': [('x', 'int')], 'props': True, 'extra': True}
+    fam.append(('slots', {'classes': BASE + [sl, sd], 'root': ('list', ('cls', 'Sl'))},
+                lambda b: [[b.classes['Sl'](1), b.classes['Sl'](2, 'b')], [b.classes['Sd'](1, b.classes['In'](5)), b.classes['Sd'](3, b.classes['In'](6, 'q'), '1')]]))
+    fam.append(('props', {'classes': BASE + [pr], 'root': ('dict', 'str', ('cls', 'Pr'))},
+                lambda b: [{'a': b.classes['Pr'](1, list(b.classes['E'])[0], [1, 2]), 'b': b.classes['Pr'](2, list(b.classes['E'])[1])}]))
+    fam.append(('props-extra', {'classes': BASE + [px], 'root': ('cls', 'Px')},
+                lambda b: [b.classes['Px'](1, collections.OrderedDict([('k', 'v'), ('m', [1])])), b.classes['Px'](2, collections.OrderedDict())]))
     fam.append(('hier', {'classes': BASE + [{'name': 'A', 'params': [('x', 'int')]},
                                             {'name': 'B', 'bases': ['A'], 'params': [('x', 'int'), ('y', 'int')]},
                                             {'name': 'C', 'bases': ['A'], 'params': [('x', 'int'), ('z', 'str')]}],
@@ -198,7 +210,11 @@ def defaults_family():
                                     hooks={'sweeten': [('remove_defaults',)]})], 'root': ('list', ('cls', 'K'))}
     fam.append(('defaults-extra-first', spec_e,
                 lambda b: [[b.classes['K'](1, collections.OrderedDict(), y, z, w)] for y in (3, 0, 5) for z in (0, 3, 5) for w in ('d', '3', 'x')] +
-                          [[b.classes['K'](1, collections.OrderedDict([('q', 1)]), 0, 3, 'd')]]))
+                          [[b.classes['K'](1, collections.OrderedDict([('q', 1)]), 0, 3, 'd')]] +
+                          # extra attributes that are called like the machinery's own parameters and hold what that
+                          # parameter's default is: extras like any other, not defaulted attributes
+                          [[b.classes['K'](1, collections.OrderedDict([('_yatiml_extra', None), ('other', None)]), 3, 0, 'd')],
+                           [b.classes['K'](2, collections.OrderedDict([('self', None), ('_yatiml_extra', 3), ('y', None)][:2]), 0, 0, 'x')]]))
     fam.append(('defaults-override', spec, lambda b: [b.classes['K'](1, l, e) for l in (None, [1]) for e in (None, list(b.classes['E'])[0])]))
     return fam
 
